@@ -17,3 +17,27 @@ type Map = sync.Map
 
 // QuietMutex guards point-free critical sections (see cmd/mkoverlay, singleflight).
 type QuietMutex = verifrt.QuietMutex
+
+// Once: the first Do runs f while later callers wait for it, exactly what holding a mutex
+// around the test-and-run gives (scheduling points and happens-before edges included).
+type Once struct {
+	m    verifrt.Mutex
+	done bool
+}
+
+func (o *Once) Do(f func()) {
+	o.m.Lock()
+	defer o.m.Unlock()
+	if !o.done {
+		defer func() { o.done = true }() // sync.Once counts a panicking f as done too
+		f()
+	}
+}
+
+// RWMutex is explored as a plain mutex: readers exclude each other as well. That removes
+// no behaviour a correct program depends on (reader concurrency is never required for
+// progress unless a read lock is taken recursively, which sync forbids).
+type RWMutex struct{ verifrt.Mutex }
+
+func (m *RWMutex) RLock()   { m.Lock() }
+func (m *RWMutex) RUnlock() { m.Unlock() }
